@@ -24,6 +24,19 @@ pub trait Probe: Sized {
     /// Reads the id back. A value that is internally inconsistent (half overwritten) answers a
     /// poison value (`POISON | something`).
     fn ident(&self) -> u64;
+    /// Like [`Probe::make`], but instrumented values get a serial of their own, so that a
+    /// second value standing for the same id can exist next to the first one.
+    fn make_detached(id: u64) -> Self {
+        Self::make(id)
+    }
+    /// Ledger serials of the instrumented values inside (empty for plain types).
+    fn serials(&self) -> Vec<u64> {
+        Vec::new()
+    }
+    /// How many times cloning this value consults [`CLONE_PANIC_COUNTDOWN`].
+    fn clone_points() -> usize {
+        0
+    }
 }
 
 /// Marker returned by [`Probe::ident`] for inconsistent values.
@@ -275,6 +288,29 @@ impl Probe for Option<Box<u64>> {
     }
 }
 
+impl Probe for Option<u32> {
+    fn make(id: u64) -> Self {
+        if id % 3 == 0 {
+            None
+        } else {
+            Some(id as u32)
+        }
+    }
+    fn norm(id: u64) -> u64 {
+        if id % 3 == 0 {
+            0x4e4f_4e45_0000
+        } else {
+            id as u32 as u64
+        }
+    }
+    fn ident(&self) -> u64 {
+        match self {
+            None => 0x4e4f_4e45_0000,
+            Some(v) => *v as u64,
+        }
+    }
+}
+
 /// Plain user type in the crate root (C17 grammar).
 #[derive(Clone, Copy, Debug, PartialEq, Eq, serde::Serialize, serde::Deserialize)]
 pub struct Plain {
@@ -466,6 +502,10 @@ impl Probe for Tracked {
     fn make(id: u64) -> Self {
         Tracked::with_serial(id, id)
     }
+    fn make_detached(id: u64) -> Self {
+        let serial = NEXT_CLONE_SERIAL.fetch_add(1, std::sync::atomic::Ordering::Relaxed);
+        Tracked::with_serial(id, serial)
+    }
     fn norm(id: u64) -> u64 {
         id
     }
@@ -476,6 +516,12 @@ impl Probe for Tracked {
         } else {
             POISON | (self.ident & 0xffff_ffff)
         }
+    }
+    fn serials(&self) -> Vec<u64> {
+        vec![self.serial]
+    }
+    fn clone_points() -> usize {
+        1
     }
 }
 
@@ -526,6 +572,10 @@ impl Probe for [Tracked; 2] {
             Tracked::with_serial(!id, id + PAIR_SERIAL_OFFSET),
         ]
     }
+    fn make_detached(id: u64) -> Self {
+        let s0 = NEXT_CLONE_SERIAL.fetch_add(2, std::sync::atomic::Ordering::Relaxed);
+        [Tracked::with_serial(id, s0), Tracked::with_serial(!id, s0 + 1)]
+    }
     fn norm(id: u64) -> u64 {
         id
     }
@@ -537,6 +587,12 @@ impl Probe for [Tracked; 2] {
         } else {
             POISON | (a & 0xffff_ffff)
         }
+    }
+    fn serials(&self) -> Vec<u64> {
+        vec![self[0].serial, self[1].serial]
+    }
+    fn clone_points() -> usize {
+        2
     }
 }
 
@@ -554,6 +610,12 @@ impl Probe for TrackedBig {
             pad: [!id, id.rotate_left(9)],
         }
     }
+    fn make_detached(id: u64) -> Self {
+        TrackedBig {
+            t: Tracked::make_detached(id),
+            pad: [!id, id.rotate_left(9)],
+        }
+    }
     fn norm(id: u64) -> u64 {
         id
     }
@@ -564,6 +626,12 @@ impl Probe for TrackedBig {
         } else {
             POISON | (id & 0xffff_ffff)
         }
+    }
+    fn serials(&self) -> Vec<u64> {
+        vec![self.t.serial]
+    }
+    fn clone_points() -> usize {
+        1
     }
 }
 
@@ -594,11 +662,18 @@ impl Probe for Tracked12 {
     fn make(id: u64) -> Self {
         Tracked12::with_serial(id as u32, id)
     }
+    fn make_detached(id: u64) -> Self {
+        let serial = NEXT_CLONE_SERIAL.fetch_add(1, std::sync::atomic::Ordering::Relaxed);
+        Tracked12::with_serial(id as u32, serial)
+    }
     fn norm(id: u64) -> u64 {
         id as u32 as u64
     }
     fn ident(&self) -> u64 {
         self.ident as u64
+    }
+    fn serials(&self) -> Vec<u64> {
+        vec![self.serial()]
     }
 }
 
